@@ -12,18 +12,18 @@ import numpy as np
 
 from fsmc import bases, tissue as T, fsutil, solvecase as SC
 from fsmc.ref import tangent as RT
-from fsmc.explorer import ListSystem
+from fsmc.explorer import ListSystem, ProductSystem
 
 PID = "C10"
 RULE = ("states = reachable object graphs of a ForSys under op histories (BFS, de-duplicated on a hash of all instance dictionaries); "
         "non-trivial = at least one frame solved; classes = (effective ops per frame)")
-BOUND = {"quick": "1 frame: all histories to depth 3 over 12 ops from 2 start states (fresh; solved with an angle limit and pressures); 2 frames: depth 3 over 16 ops from the fresh object, depth 2 over 18 ops from a solved one; 9 calls x 2 tissues x 2 frames with optional arguments omitted vs spelled out at their defaults",
-         "thorough": "1 frame: depth 4 over 13 ops from 3 start states; 2 frames: depth 3 over 22 ops from 2 start states; 3 frames: depth 2 over 19 ops from 2 start states"}
+BOUND = {"quick": "1 frame: all histories to depth 3 over 12 ops from 2 start states (fresh; solved with an angle limit and pressures); 2 frames: depth 3 over 16 ops from the fresh object, depth 2 over 18 ops from a solved one; 9 calls x 2 tissues x 2 frames with optional arguments omitted vs spelled out at their defaults; two 12-call pipelines over 2 frames and every sequence differing from them in 1 position (9 alternative calls or dropped)",
+         "thorough": "1 frame: depth 4 over 13 ops from 3 start states; 2 frames: depth 3 over 22 ops from 2 start states; 3 frames: depth 2 over 19 ops from 2 start states; 12-call pipelines with 1 deviation over 18 alternatives and 2 deviations over 9 alternatives"}
 ASSUMPTIONS = ["what matters for the tensions of frame t: the last successful build of t before the last successful solve of t, and that solve's arguments",
                "what matters for the pressures of frame t: the tensions present when the pressure matrix was last built, and the last solve_pressure",
                "interfaces excluded by an angle limit are only compared through the -1 reported for them",
                "cm=False (centre-of-mass shifting edits the frame data itself)"]
-REQUIRED_TAGS = {"all": ["solved", "pressure_solved", "excluded_some", "resolved_other_options", "two_frames", "velocity", "sysvel", "data_edited", "defaults_spelled_out"]}
+REQUIRED_TAGS = {"all": ["solved", "pressure_solved", "excluded_some", "resolved_other_options", "two_frames", "velocity", "sysvel", "data_edited", "defaults_spelled_out", "long_sequence", "len12"]}
 
 BUILDS = {"bdef": {}, "btau": {"circle_fit_method": "taubinSVD"}, "bang": "ANGLE"}
 SOLVES = {"sdef": {}, "slsq": {"method": "lsq"}, "slin": {"method": "lsq_linear"}, "svel": {"b_matrix": "velocity"}, "sfix": {"method": "fix_stress"},
@@ -409,18 +409,64 @@ def eval_spelled(d):
     return {"viol": viol, "tags": tags, "cls": "%s/%s/%s" % (what, noisy, t), "nontrivial": a["exc"] is None}
 
 
+# ---------------------------------------------------------------- long sequences, deviation bounded
+class LongSequences(ProductSystem):
+    """the statement ranges over sequences of up to 12 calls; breadth-first search from the empty history cannot reach that depth,
+    so long sequences are explored by DEVIATIONS instead: a 12-call pipeline (both frames built, solved, pressures, system
+    velocity, a re-solve with other options) and every sequence that differs from it in at most `bound` positions, each position
+    being replaced by any other call of the alphabet or dropped. Every sequence is executed on a live object and judged by the
+    same oracle as the breadth-first histories (store/mesh agreement + fresh object with only the calls that matter)."""
+    chunk = 2
+
+    def __init__(self, name, hist, pipelines, alts, bound):
+        self.name = name
+        self.hist = hist
+        self.pipelines = pipelines
+        self.alts = alts
+        self.bound = bound
+
+    def bases(self):
+        return list(range(len(self.pipelines)))
+
+    def axes(self, base):
+        seq = self.pipelines[base]
+        return {"p%02d" % i: [list(op)] + [list(a) for a in self.alts if list(a) != list(op)] + [["skip"]] for i, op in enumerate(seq)}
+
+    def eval_config(self, base, cfg):
+        ops = [cfg[k] for k in sorted(cfg) if cfg[k] != ["skip"]]
+        r = self.hist.evaluate({"ops": ops})
+        r.pop("key", None)
+        r["tags"] = sorted(set(r["tags"] + ["long_sequence", "len%d" % len(ops)]))
+        r["cls"] = "L%d|%s" % (len(ops), r["cls"])
+        return r
+
+    def check_pair(self, base, axis, cfg1, r1, cfg2, r2):
+        return [], []
+
+
+PIPELINES = [
+    [["bdef", 0], ["sdef", 0], ["pbuild", 0], ["psolve", 0], ["bdef", 1], ["svel", 1], ["pbuild", 1], ["psolve", 1], ["sysvel"], ["bang", 0], ["sdef", 0], ["psolve", 0]],
+    [["bang", 1], ["sdef", 1], ["bdef", 0], ["svel", 0], ["pbuild", 0], ["psolve", 0], ["btau", 1], ["slsq", 1], ["pbuild", 1], ["psolve", 1], ["bdef", 0], ["sdef", 0]],
+]
+
+
 def build(tier, seed):
     cells = first_connected("v5x5", 7)
     spelled = ListSystem("defaults-spelled-out", [{"what": w, "noisy": nz, "frame": t, "cells": cells if tier == "quick" or big == 0 else None}
                                                   for w in SPELLED for nz in (False, True) for t in (0, 1) for big in ((0,) if tier == "quick" else (0, 1))], eval_spelled)
+    h2 = Histories("two-frames-long", "v5x5", cells, 2, [], 0)
+    alts_q = [["bdef", 0], ["bang", 1], ["sdef", 1], ["svel", 0], ["slin", 0], ["pbuild", 1], ["psolve", 0], ["shift", 0], ["sysvel"]]
+    alts_t = alts_q + [["btau", 0], ["bdef", 1], ["sdef", 0], ["svel", 1], ["sfix", 1], ["pbuild", 0], ["psolve", 1], ["shift", 1], ["slsq", 0]]
     if tier == "quick":
         r1 = [[["bang", 0], ["sdef", 0], ["pbuild", 0], ["psolve", 0]], [["bdef", 0], ["sdef", 0], ["bang", 0], ["sdef", 0], ["pbuild", 0]]]
         r2 = [[["bdef", 0], ["sdef", 0], ["bdef", 1], ["svel", 1]]]
         return [Histories("one-frame", "v5x5", cells, 1, ops_for(1, ["bdef", "btau", "bang"], ["sdef", "slsq", "slin", "sfix"]), 3, r1),
                 Histories("two-frames", "v5x5", cells, 2, ops_for(2, ["bdef", "bang"], ["sdef", "svel"]), 3),
-                Histories("two-frames-from-solved", "v5x5", cells, 2, ops_for(2, ["bdef", "bang"], ["sdef", "svel", "sfix"]), 2, r2), spelled]
+                Histories("two-frames-from-solved", "v5x5", cells, 2, ops_for(2, ["bdef", "bang"], ["sdef", "svel", "sfix"]), 2, r2), spelled,
+                LongSequences("long-sequences-d1", h2, PIPELINES, alts_q, 1)]
     r1 = [[["bdef", 0], ["sdef", 0]], [["bang", 0], ["sdef", 0], ["pbuild", 0], ["psolve", 0]]]
     r2 = [[["bdef", 0], ["sdef", 0], ["bdef", 1], ["svel", 1]]]
     return [Histories("one-frame", "v5x5", cells, 1, ops_for(1, ["bdef", "btau", "bang"], ["sdef", "slsq", "slin", "sfix", "sneg"]), 4, r1),
             Histories("two-frames", "v5x5", cells, 2, ops_for(2, ["bdef", "bang", "btau"], ["sdef", "svel", "sfix", "slin"]), 3, r2),
-            Histories("three-frames", "v5x5", cells, 3, ops_for(3, ["bdef", "bang"], ["sdef", "svel"]), 2, r2), spelled]
+            Histories("three-frames", "v5x5", cells, 3, ops_for(3, ["bdef", "bang"], ["sdef", "svel"]), 2, r2), spelled,
+            LongSequences("long-sequences-d1", h2, PIPELINES, alts_t, 1), LongSequences("long-sequences-d2", h2, PIPELINES[:1], alts_q, 2)]
